@@ -596,6 +596,15 @@ class Replayer:
                 fails += h(live, t, val) or []
         if sem and self.validator is not None and not any(f.startswith("state[") for f in fails):
             self.emit(t, live, cls, val, fails)
+        elif sem and self.validator is None and self.mode.exact and cls == "ok":
+            # no clause judgement in this run, but exact data must still give exact numbers
+            try:
+                if act["name"] in MUTATING_SEM:
+                    self.project(live[act["obj"]])
+                elif isinstance(val, dict) and val.get("curve") is not None:
+                    self.project(val["curve"])
+            except TypeError as e:
+                fails.append(f"result: inexact number from exact data: {e}")
         # observations (queries) on every object of the post state
         if not fails:
             for name, obs in t.get("obs", {}).items():
